@@ -221,6 +221,120 @@ impl Elem for En {
   }
 }
 
+// ------------------------------------------------------------------------------------------------
+// the library's own element types whose key is the value (`impl KeyComparable for X { type Key = X }`): Url, CoreDID, DIDUrl
+// ------------------------------------------------------------------------------------------------
+
+/// A library value type whose `KeyComparable` key is the value itself. The harness only knows its serialised string.
+trait LibVal: KeyComparable<Key = Self> + PartialEq + Sized + Clone + Debug + Serialize + DeserializeOwned + 'static {
+  const KIND: &'static str;
+  const DIRECT: &'static str;
+  /// the serialised string of the value: the harness's notion of the key AND of value identity
+  fn s(&self) -> String;
+  fn parse(s: &str) -> Option<Self>;
+}
+
+impl LibVal for identity_core::common::Url {
+  const KIND: &'static str = "url";
+  const DIRECT: &'static str = "url-direct";
+  fn s(&self) -> String {
+    self.as_str().to_owned()
+  }
+  fn parse(s: &str) -> Option<Self> {
+    identity_core::common::Url::parse(s).ok()
+  }
+}
+
+impl LibVal for identity_did::CoreDID {
+  const KIND: &'static str = "coredid";
+  const DIRECT: &'static str = "coredid-direct";
+  fn s(&self) -> String {
+    self.to_string()
+  }
+  fn parse(s: &str) -> Option<Self> {
+    identity_did::CoreDID::parse(s).ok()
+  }
+}
+
+impl LibVal for identity_did::DIDUrl {
+  const KIND: &'static str = "didurl";
+  const DIRECT: &'static str = "didurl-direct";
+  fn s(&self) -> String {
+    self.to_string()
+  }
+  fn parse(s: &str) -> Option<Self> {
+    identity_did::DIDUrl::parse(s).ok()
+  }
+}
+
+/// Harness wrapper around a library value: key type, key function and key equality are the LIBRARY's
+/// (`<X as KeyComparable>`), value equality (what the oracle compares with) is the harness's: the serialised strings.
+#[derive(Clone, Debug, Serialize, Deserialize)]
+#[serde(transparent)]
+#[serde(bound(serialize = "X: Serialize", deserialize = "X: DeserializeOwned"))]
+struct W<X: LibVal>(X);
+
+impl<X: LibVal> PartialEq for W<X> {
+  fn eq(&self, o: &Self) -> bool {
+    self.0.s() == o.0.s()
+  }
+}
+
+impl<X: LibVal> KeyComparable for W<X> {
+  type Key = <X as KeyComparable>::Key;
+  fn key(&self) -> &Self::Key {
+    KeyComparable::key(&self.0)
+  }
+}
+
+impl<X: LibVal> Elem for W<X> {
+  type K = String;
+  type KeyArg = W<X>;
+  const KIND: &'static str = X::KIND;
+  fn hkey(&self) -> String {
+    self.0.s()
+  }
+  fn key_arg(k: &String) -> W<X> {
+    W(X::parse(k).expect("key strings of the universe re-parse"))
+  }
+  fn jval(&self) -> Value {
+    Value::String(self.0.s())
+  }
+  fn show(&self) -> String {
+    self.0.s()
+  }
+  fn show_key(k: &String) -> String {
+    k.clone()
+  }
+}
+
+/// Parses the candidates, keeps those that parse, whose string re-parses to the same string and whose own serde form is
+/// that string, distinct by string (several spellings may normalise to one value: those are ONE element of the universe).
+fn lib_universe<X: LibVal>(cands: &[&str]) -> Vec<W<X>> {
+  let mut out: Vec<W<X>> = Vec::new();
+  for c in cands {
+    let r = catch(|| {
+      let x = X::parse(c)?;
+      let s = x.s();
+      let again = X::parse(&s)?;
+      if again.s() != s || serde_json::to_value(&x).ok()? != Value::String(s.clone()) {
+        return None;
+      }
+      let back: X = serde_json::from_value(Value::String(s.clone())).ok()?;
+      if back.s() != s {
+        return None;
+      }
+      Some(W(x))
+    });
+    if let Ok(Some(w)) = r {
+      if !out.iter().any(|o| o == &w) {
+        out.push(w);
+      }
+    }
+  }
+  out
+}
+
 fn show_list<T: Elem>(m: &[T]) -> String {
   format!("[{}]", m.iter().map(|e| e.show()).collect::<Vec<_>>().join(","))
 }
@@ -1458,6 +1572,18 @@ impl MapSuite for String {
   }
 }
 
+impl<X: LibVal> MapSuite for W<X> {
+  fn map_suite(cx: &mut Ctx, src: &OneOrSet<W<X>>, model: &[W<X>]) {
+    let never = |_: &W<X>| false;
+    // images collide exactly where the harness's string keys collide
+    oos_map::<W<X>, String>(cx, src, model, "str", &|w| w.0.s(), &never);
+    oos_map::<W<X>, W<X>>(cx, src, model, "trim-trailing-slashes", &|w| X::parse(w.0.s().trim_end_matches('/')).map(W).unwrap_or_else(|| w.clone()), &never);
+    oos_map::<W<X>, W<X>>(cx, src, model, "id", &|w| w.clone(), &|w| w.0.s().ends_with("//"));
+    oos_map::<W<X>, String>(cx, src, model, "lower", &|w| w.0.s().to_lowercase(), &never);
+    oos_map::<W<X>, u8>(cx, src, model, "len%3", &|w| (w.0.s().len() % 3) as u8, &never);
+  }
+}
+
 fn oos_lists<T: MapSuite>(cx: &mut Ctx, universe: &[T], max_len: usize, append_depth: usize) {
   let keys = universe_keys(universe);
   let args = cx.args.clone();
@@ -1963,6 +2089,320 @@ fn borrowed_items(cx: &mut Ctx, universe: &[&'static str], max_len: usize) {
   }
 }
 
+// ------------------------------------------------------------------------------------------------
+// phase 9: the library's own value-keyed element types used DIRECTLY (OrderedSet<Url>, OneOrSet<Url>, ...): the same list model,
+// every observation through the serialised strings only (never through the type's own `==`)
+// ------------------------------------------------------------------------------------------------
+
+fn strs_of<X: LibVal>(it: &[X]) -> Vec<String> {
+  it.iter().map(|x| x.s()).collect()
+}
+
+fn direct_apply<X: LibVal>(s: &mut OrderedSet<X>, op: &Op<W<X>>) -> Out<W<X>> {
+  match op {
+    Op::Append(x) => Out::Flag(s.append(x.0.clone())),
+    Op::Prepend(x) => Out::Flag(s.prepend(x.0.clone())),
+    Op::Update(x) => Out::Flag(s.update(x.0.clone())),
+    Op::Replace(k, x) => Out::Flag(s.replace(&W::<X>::key_arg(k).0, x.0.clone())),
+    Op::Remove(k) => Out::Removed(s.remove(&W::<X>::key_arg(k).0).map(W)),
+  }
+}
+
+/// Own JSON of a directly used collection: must be `want` (one of them) and must deserialise to the same strings.
+fn direct_json<X: LibVal, C: Serialize + DeserializeOwned>(cx: &mut Ctx, what: &str, v: &C, want: &[Value], model: &[String], strings: &dyn Fn(&C) -> Vec<String>, hist: &dyn Fn() -> Value) {
+  let r = catch(|| -> Result<(String, bool, Result<Vec<String>, String>), String> {
+    let js = v.to_json().map_err(|e| e.to_string())?;
+    let val: Option<Value> = serde_json::from_str(&js).ok();
+    let form_ok = want.iter().any(|w| Some(w) == val.as_ref());
+    let back = C::from_json(&js).map(|b| strings(&b)).map_err(|e| e.to_string());
+    Ok((js, form_ok, back))
+  });
+  match r {
+    Err(p) => cx.rep.violation(&format!("{}-json-panic@{}", what, p.file_only()), &format!("[{}] JSON round trip of {:?} panicked: {} at {}", X::DIRECT, model, p.msg, p.loc()), json!({"kind":X::DIRECT,"state":model,"history":hist()})),
+    Ok(Err(e)) => cx.rep.violation(&format!("{}-json-form", what), &format!("[{}] to_json failed on {:?}: {}", X::DIRECT, model, e), json!({"kind":X::DIRECT,"state":model,"history":hist()})),
+    Ok(Ok((js, false, _))) => cx.rep.violation(&format!("{}-json-form", what), &format!("[{}] {} {:?} serialises as {}", X::DIRECT, what, model, js), json!({"kind":X::DIRECT,"state":model,"json":js,"history":hist()})),
+    Ok(Ok((js, true, back))) => {
+      if back.as_ref().ok().map(|b| b.as_slice() == model).unwrap_or(false) {
+        cx.rep.inc("json_roundtrips");
+        cx.rep.inc("direct_json_roundtrips");
+      } else {
+        cx.rep.violation(
+          &format!("{}-json-roundtrip", what),
+          &format!("[{}] own JSON {} of a {} does not deserialise to an equal value: {:?}", X::DIRECT, js, what, back),
+          json!({"kind":X::DIRECT,"state":model,"json":js,"history":hist()}),
+        );
+      }
+    }
+  }
+}
+
+/// One list (possibly with duplicate keys / empty) through the constructors and serde of OrderedSet<X> and OneOrSet<X>.
+fn direct_list<X: LibVal>(cx: &mut Ctx, l: &[W<X>], universe: &[W<X>]) {
+  cx.rep.eval();
+  cx.rep.inc("direct_list_cases");
+  let uniq = keys_unique(l);
+  let dedup: Vec<String> = dedup_first(l).iter().map(|w| w.0.s()).collect();
+  let ls: Vec<String> = l.iter().map(|w| w.0.s()).collect();
+  let raw: Vec<X> = l.iter().map(|w| w.0.clone()).collect();
+  let arr = json!(ls);
+  let js = arr.to_string();
+  cx.rep.distinct("nontrivial", &format!("direct-list|{}|len{}|uniq{}|dedup{}", X::DIRECT, l.len(), uniq, dedup.len()));
+  let hist = || json!({"list": ls});
+  let oset_strings = |s: &OrderedSet<X>| strs_of(s.as_slice());
+  let oos_strings = |s: &OneOrSet<X>| strs_of(s.as_slice());
+  // OrderedSet: TryFrom<Vec>, serde, collect
+  for (origin, r) in [
+    ("tryfrom", catch(|| OrderedSet::try_from(raw.clone()).map_err(|e| e.to_string()))),
+    ("json", catch(|| OrderedSet::<X>::from_json(&js).map_err(|e| e.to_string()))),
+  ] {
+    match r {
+      Err(p) => cx.rep.violation(&format!("oset-{}-panic@{}", origin, p.file_only()), &format!("[{}] {} of {:?} panicked: {} at {}", X::DIRECT, origin, ls, p.msg, p.loc()), json!({"kind":X::DIRECT,"list":ls})),
+      Ok(Ok(s)) => {
+        cx.rep.inc("direct_ctor_accepted");
+        let got = catch(|| oset_strings(&s)).unwrap_or_default();
+        if !uniq {
+          cx.rep.violation(&format!("oset-{}-accepts-duplicates", origin), &format!("[{}] OrderedSet {}({:?}) accepted", X::DIRECT, origin, ls), json!({"kind":X::DIRECT,"list":ls}));
+        } else if got != ls {
+          cx.rep.violation(&format!("oset-build-content:{}", origin), &format!("[{}] OrderedSet {}({:?}) holds {:?}", X::DIRECT, origin, ls, got), json!({"kind":X::DIRECT,"list":ls,"got":got}));
+        } else {
+          direct_json::<X, _>(cx, "oset", &s, &[arr.clone()], &ls, &oset_strings, &hist);
+        }
+      }
+      Ok(Err(e)) => {
+        cx.rep.inc("direct_ctor_rejected");
+        if uniq {
+          cx.rep.violation(&format!("oset-{}-rejects-unique", origin), &format!("[{}] OrderedSet {}({:?}) rejected a duplicate-free list: {}", X::DIRECT, origin, ls, e), json!({"kind":X::DIRECT,"list":ls}));
+        }
+      }
+    }
+  }
+  match catch(|| raw.iter().cloned().collect::<OrderedSet<X>>()) {
+    Err(p) => cx.rep.violation("oset-collect-panic:exact", &format!("[{}] collect({:?}) panicked: {} at {}", X::DIRECT, ls, p.msg, p.loc()), json!({"kind":X::DIRECT,"list":ls})),
+    Ok(s) => {
+      cx.rep.inc("oset_collect_checked");
+      let got = catch(|| oset_strings(&s)).unwrap_or_default();
+      if got != dedup {
+        cx.rep.violation("oset-collect-content", &format!("[{}] collect({:?}) = {:?} but first occurrences are {:?}", X::DIRECT, ls, got, dedup), json!({"kind":X::DIRECT,"list":ls,"got":got}));
+      } else {
+        let contains_ok = catch(|| universe.iter().all(|u| s.contains(&u.0) == dedup.contains(&u.0.s()))).unwrap_or(false);
+        if !contains_ok {
+          cx.rep.violation("oset-accessor-mismatch:contains", &format!("[{}] contains() on {:?} disagrees with the model", X::DIRECT, dedup), json!({"kind":X::DIRECT,"state":dedup}));
+        }
+      }
+    }
+  }
+  // OneOrSet: TryFrom<Vec>, serde (array), bare value, then one append of every universe element
+  let reject = if l.is_empty() { Some("empty") } else if !uniq { Some("duplicates") } else { None };
+  let mut routes = vec![
+    ("try_from_vec", true, catch(|| OneOrSet::try_from(raw.clone()).map_err(|e| e.to_string()))),
+    ("from_json", false, catch(|| OneOrSet::<X>::from_json(&js).map_err(|e| e.to_string()))),
+  ];
+  if l.len() == 1 {
+    routes.push(("new_one", true, catch(|| Ok(OneOrSet::new_one(raw[0].clone())))));
+    routes.push(("from_json_bare", true, catch(|| OneOrSet::<X>::from_json(&json!(ls[0]).to_string()).map_err(|e| e.to_string()))));
+  }
+  for (origin, ctor, r) in routes {
+    match r {
+      Err(p) => cx.rep.violation(&format!("oneorset-{}-panic@{}", origin, p.file_only()), &format!("[{}] {}({:?}) panicked: {} at {}", X::DIRECT, origin, ls, p.msg, p.loc()), json!({"kind":X::DIRECT,"input":ls})),
+      Ok(Err(e)) => match reject {
+        Some("empty") => cx.rep.inc("oneorset_rejected_empty"),
+        Some(_) => cx.rep.inc("oneorset_rejected_duplicates"),
+        None => cx.rep.violation(&format!("oneorset-rejects-valid:{}", origin), &format!("[{}] OneOrSet {}({:?}) rejected a non-empty duplicate-free input: {}", X::DIRECT, origin, ls, e), json!({"kind":X::DIRECT,"input":ls,"origin":origin})),
+      },
+      Ok(Ok(v)) => {
+        cx.rep.inc("oneorset_accepted");
+        if let Some(why) = reject {
+          cx.rep.violation(&format!("oneorset-accepts-{}:{}", why, origin), &format!("[{}] OneOrSet {}({:?}) accepted although the input is {}", X::DIRECT, origin, ls, why), json!({"kind":X::DIRECT,"input":ls,"origin":origin}));
+          continue;
+        }
+        let got = catch(|| oos_strings(&v)).unwrap_or_default();
+        if got != ls {
+          cx.rep.violation(&format!("oneorset-content:{}:as_slice", origin), &format!("[{}] OneOrSet {}({:?}) holds {:?}", X::DIRECT, origin, ls, got), json!({"kind":X::DIRECT,"input":ls,"got":got}));
+          continue;
+        }
+        let form = |m: &[String], ctor: bool| -> Vec<Value> {
+          if m.len() == 1 && ctor { vec![json!(m[0])] } else if m.len() == 1 { vec![json!(m[0]), json!(m)] } else { vec![json!(m)] }
+        };
+        direct_json::<X, _>(cx, "oneorset", &v, &form(&ls, ctor), &ls, &oos_strings, &hist);
+        for x in universe {
+          cx.rep.inc("oneorset_append_checked");
+          let want_flag = !ls.contains(&x.0.s());
+          let mut want = ls.clone();
+          if want_flag {
+            want.push(x.0.s());
+          }
+          let h = || json!({"start": ls, "origin": origin, "op": format!("append({})", x.0.s())});
+          match catch(|| {
+            let mut c = v.clone();
+            let f = c.append(x.0.clone());
+            let g = oos_strings(&c);
+            (c, f, g)
+          }) {
+            Err(p) => cx.rep.violation(&format!("oneorset-append-panic@{}", p.file_only()), &format!("[{}] append({}) on {:?} panicked: {}", X::DIRECT, x.0.s(), ls, p.msg), json!({"kind":X::DIRECT,"history":h()})),
+            Ok((c, f, g)) => {
+              if f != want_flag {
+                cx.rep.violation("oneorset-append-result", &format!("[{}] OneOrSet {:?}.append({}) returned {}", X::DIRECT, ls, x.0.s(), f), json!({"kind":X::DIRECT,"history":h()}));
+              } else if g != want {
+                cx.rep.violation("oneorset-content:append:as_slice", &format!("[{}] OneOrSet {:?}.append({}) left {:?}", X::DIRECT, ls, x.0.s(), g), json!({"kind":X::DIRECT,"history":h()}));
+              } else {
+                direct_json::<X, _>(cx, "oneorset", &c, &form(&want, ctor || want.len() > 1), &want, &oos_strings, &h);
+              }
+            }
+          }
+        }
+      }
+    }
+  }
+}
+
+fn direct_lists<X: LibVal>(cx: &mut Ctx, universe: &[W<X>], max_len: usize) {
+  let args = cx.args.clone();
+  let stride = (1000 / cx.scale.max(1)).max(1).min(16);
+  let mut lists: Vec<Vec<W<X>>> = Vec::new();
+  for_each_list(universe, max_len, |i, l| {
+    if args.mine(i) && (l.len() <= 2 || (i / args.nshards.max(1)) % stride == 0) {
+      lists.push(l.to_vec());
+    }
+  });
+  for l in &lists {
+    direct_list(cx, l, universe);
+  }
+}
+
+/// Random histories on an `OrderedSet<X>` itself, judged by the list model over the wrapped values (string keys).
+fn direct_sequences<X: LibVal>(cx: &mut Ctx, rng: &mut Rng, pool: &[W<X>], n_seq: u64, len: usize) {
+  let keys = universe_keys(pool);
+  let mut steps = 0u64;
+  let mut classes = vec![false; 5 * 5];
+  for _ in 0..n_seq {
+    let ne = 2 + rng.usize(pool.len() - 1);
+    let mut elems: Vec<W<X>> = pool.to_vec();
+    rng.shuffle(&mut elems);
+    elems.truncate(ne);
+    let init_len = rng.usize(5);
+    let rawl: Vec<W<X>> = (0..init_len).map(|_| rng.pick(&elems).clone()).collect();
+    let mut model = dedup_first(&rawl);
+    let mode = rng.below(3);
+    let start: Vec<X> = model.iter().map(|w| w.0.clone()).collect();
+    let built = catch(|| match mode {
+      0 => {
+        let mut s = OrderedSet::new();
+        for e in start.iter() {
+          s.append(e.clone());
+        }
+        Ok(s)
+      }
+      1 => OrderedSet::try_from(start.clone()).map_err(|e| e.to_string()),
+      _ => OrderedSet::<X>::from_json(&json!(strs_of(&start)).to_string()).map_err(|e| e.to_string()),
+    });
+    let mstr = |m: &[W<X>]| -> Vec<String> { m.iter().map(|w| w.0.s()).collect() };
+    let mut set = match built {
+      Ok(Ok(s)) if catch(|| strs_of(s.as_slice())).unwrap_or_default() == mstr(&model) => s,
+      other => {
+        let what = match other {
+          Ok(Ok(s)) => format!("holds {:?}", catch(|| strs_of(s.as_slice())).unwrap_or_default()),
+          Ok(Err(e)) => format!("rejected: {}", e),
+          Err(p) => format!("panicked: {} at {}", p.msg, p.loc()),
+        };
+        cx.rep.violation(
+          &format!("oset-build-content:{}", ["appends", "try_from", "from_json"][mode as usize]),
+          &format!("[{}] building the duplicate-free list {:?} (path {}) {}", X::DIRECT, mstr(&model), mode, what),
+          json!({"kind":X::DIRECT,"list":mstr(&model),"path":mode}),
+        );
+        continue;
+      }
+    };
+    let mut hist: Vec<String> = vec![format!("start {} (build path {})", show_list(&model), mode)];
+    let mut ok_all = true;
+    for _ in 0..len {
+      let op: Op<W<X>> = match rng.below(5) {
+        0 => Op::Append(rng.pick(&elems).clone()),
+        1 => Op::Prepend(rng.pick(&elems).clone()),
+        2 => Op::Update(rng.pick(&elems).clone()),
+        3 => Op::Replace(rng.pick(&keys).clone(), rng.pick(&elems).clone()),
+        _ => Op::Remove(rng.pick(&keys).clone()),
+      };
+      hist.push(op.show());
+      let (prim, _, pcls) = model_apply(&model, &op);
+      let r = catch(|| {
+        let mut s = set.clone();
+        let out = direct_apply(&mut s, &op);
+        let got = strs_of(s.as_slice());
+        (s, out, got)
+      });
+      match r {
+        Err(p) => {
+          cx.rep.violation(&format!("oset-{}-panic@{}", op.name(), p.file_only()), &format!("[{}] {} on {} panicked: {} at {}", X::DIRECT, op.show(), show_list(&model), p.msg, p.loc()), json!({"kind":X::DIRECT,"history":hist}));
+          ok_all = false;
+          break;
+        }
+        Ok((s, out, got)) => {
+          let flag_ok = out == prim.out;
+          if flag_ok && got == mstr(&prim.state) {
+            steps += 1;
+            classes[op.code() * 5 + pcls] = true;
+            set = s;
+            model = prim.state;
+          } else {
+            cx.rep.violation(
+              &format!("oset-{}-{}:{}", op.name(), if flag_ok { "content" } else { "result" }, PCLS[pcls]),
+              &format!("[{}] {} on {} returned {} leaving {:?}; list model: {} leaving {}", X::DIRECT, op.show(), show_list(&model), out.show(), got, prim.out.show(), show_list(&prim.state)),
+              json!({"kind":X::DIRECT,"before":show_list(&model),"op":op.show(),"got_result":out.show(),"got_state":got,"want_result":prim.out.show(),"want_state":show_list(&prim.state),"history":hist}),
+            );
+            ok_all = false;
+            break;
+          }
+        }
+      }
+    }
+    if ok_all {
+      let m = mstr(&model);
+      let h = || json!(hist);
+      direct_json::<X, _>(cx, "oset", &set, &[json!(m)], &m, &|s: &OrderedSet<X>| strs_of(s.as_slice()), &h);
+    }
+    cx.rep.inc("direct_sequences");
+  }
+  cx.rep.count("evaluations", steps);
+  cx.rep.count("direct_steps", steps);
+  cx.rep.count("oset_ops_checked", steps);
+  for (i, b) in classes.iter().enumerate() {
+    if *b {
+      cx.rep.distinct("nontrivial", &format!("oset|direct|{}|op{}|p{}", X::DIRECT, i / 5, i % 5));
+    }
+  }
+}
+
+/// Everything for one library value type: the wrapped kind through the generic machinery, then the type itself directly.
+fn lib_value_kind<X: LibVal>(cx: &mut Ctx, rng: &mut Rng, cands: &[&str], n_seq: u64) {
+  let uni = lib_universe::<X>(cands);
+  assert!(uni.len() >= 4, "universe of {} too small: {:?}", X::KIND, uni.iter().map(|w| w.0.s()).collect::<Vec<_>>());
+  cx.rep.note(&format!("universe_{}", X::KIND), json!(uni.iter().map(|w| w.0.s()).collect::<Vec<_>>()));
+  let k3 = universe_keys(&uni[..3]);
+  let k2 = universe_keys(&uni[..2]);
+  let k4 = universe_keys(&uni[..4]);
+  let big = cx.scale >= 1000;
+  // (1) exhaustive sequences over the first three / two near-miss values
+  exhaustive_sequences(cx, &format!("{}x3", X::KIND), &uni[..3], &k3, if cx.args.thorough { 5 } else { 4 });
+  exhaustive_sequences(cx, &format!("{}x2", X::KIND), &uni[..2], &k2, if cx.args.thorough { 7 } else { 5 });
+  // (2) closure with full observation
+  if big {
+    closure(cx, &format!("{}x4", X::KIND), &uni[..4], &k4);
+  } else {
+    closure(cx, &format!("{}x3", X::KIND), &uni[..3], &k3);
+  }
+  // (3) random histories over the whole universe
+  random_sequences(cx, rng, X::KIND, &uni, n_seq, 40);
+  // (4) lists through constructors and serde, (5) odd JSON
+  let sl = if big { 3 } else { 2 };
+  oset_lists(cx, &uni[..3], sl);
+  oos_lists(cx, &uni[..3], sl, if big { 2 } else { 1 });
+  oom_lists(cx, &uni[..3], 2, 1);
+  hostile_json(cx, &uni[..3]);
+  // (9) the type itself
+  direct_sequences(cx, rng, &uni, n_seq, 40);
+  direct_lists(cx, &uni[..4.min(uni.len())], sl);
+}
+
 fn proj_universe(nkeys: u8, npay: u8) -> (Vec<P>, Vec<u8>) {
   let mut e = Vec::new();
   for k in 1..=nkeys {
@@ -1995,7 +2435,7 @@ fn main() {
      construction path (u8, struct, String); (4) every list of length 0..=4(5) over a small universe offered to TryFrom<Vec>, \
      FromIterator (several size hints) and serde, for OrderedSet, OneOrSet (plus append chains, map/try_map) and OneOrMany (plus push \
      chains), the element kinds including ones whose own JSON is an array (tuple struct), null-or-number (Option newtype) or \
-     string-or-object (enum); every accepted own JSON is also read back through from_json_value / from_json_slice / a reader / the \
+     string-or-object (enum), plus the library's own value-keyed element types Url / CoreDID / DIDUrl over universes of near-miss values (trailing slashes, letter case, percent-encoding case, port, empty query/fragment), wrapped (library key, harness string equality) through all of (1)-(5) and used directly (OrderedSet<Url>, OneOrSet<Url>, ...) in random histories and constructor/serde lists, the model keyed on the serialised string; every accepted own JSON is also read back through from_json_value / from_json_slice / a reader / the \
      pretty-printed text; (5) malformed/odd JSON; (6) collections of &str read back zero-copy from their own JSON. Each step is judged against a duplicate-free Vec model (result flag + full order). \
      distinct_exact = exhaustive sequences (distinct by construction); nontrivial classes = (phase, element kind, operation, which \
      operand keys are present, length before) resp. (kind, list length, keys unique?, de-duplicated length)",
@@ -2053,6 +2493,36 @@ fn main() {
   random_sequences(&mut cx, &mut rng, "u8", &a8, n_seq, 60);
   random_sequences(&mut cx, &mut rng, "proj", &b63, n_seq, 60);
   random_sequences(&mut cx, &mut rng, "string", &strs, n_seq, 60);
+
+  // ---- (7) the library's own element types whose key is the value: universes of near-miss values, keyed (by the model) on the
+  // serialised string. Spellings that the parser normalises to one string are one element.
+  let n_lib = n_seq / 4 + 1;
+  lib_value_kind::<identity_core::common::Url>(
+    &mut cx,
+    &mut rng,
+    &[
+      "https://example.com/api", "https://example.com/api/", "https://example.com/api//", "https://example.com/API", "https://example.com/api?",
+      "https://example.com/api#", "https://example.com:443/api", "https://example.com:8443/api", "https://EXAMPLE.com/api/", "http://example.com/api",
+      "https://example.com/a%2fb", "https://example.com/a%2Fb", "https://example.com/api/?", "https://example.com", "https://example.com//",
+      "did:example:123", "did:example:123/", "https://example.com/api/#/",
+    ],
+    n_lib,
+  );
+  lib_value_kind::<identity_did::CoreDID>(
+    &mut cx,
+    &mut rng,
+    &["did:example:abc", "did:example:ABC", "did:example:abc.", "did:exampl:abc", "did:example:abc-", "did:example:abc_", "did:example:a:bc", "did:example:abc:", "did:example:abc%2F", "did:example:abc%2f"],
+    n_lib,
+  );
+  lib_value_kind::<identity_did::DIDUrl>(
+    &mut cx,
+    &mut rng,
+    &[
+      "did:example:abc#key", "did:example:abc/#key", "did:example:abc#key/", "did:example:abc#KEY", "did:example:abc", "did:example:abc/", "did:example:abc?",
+      "did:example:abc#", "did:example:abc?a=1#key", "did:example:abc/path", "did:example:abc/path/", "did:example:ABC#key", "did:example:abc?#key",
+    ],
+    n_lib,
+  );
 
   // ---- (4) lists through constructors and serde
   let ml = if thorough { 5 } else { 4 };
